@@ -57,7 +57,14 @@ def gen(rng, tier):
                                                 p_reuse=rng.choice([0.0, 0.2])))
             if sg.vars_of(ast):
                 break
-        mons.append({'kind': kind, 'mode': mode, 'ast': ast})
+        mo = {'kind': kind, 'mode': mode, 'ast': ast}
+        if rng.random() < 0.3 and sg.size(ast) >= 4:
+            # the same requirement written with named sub-specifications
+            defs, top = sg.modularize(rng, ast, max_subs=2, prefer_stateful=rng.random() < 0.5)
+            tt = (lambda a: sg.to_text(a, None, common.dense_bounds)) if dense else (lambda a: sg.to_text(a))
+            mo['subs'] = ['%s = %s;' % (nm, tt(a)) for nm, a in defs]
+            mo['top'] = 'out = ' + tt(top) + ';'
+        mons.append(mo)
     # schedule: offline objects evaluate 1-3 times, online objects step through their stream
     tokens = []
     for j, mo in enumerate(mons):
@@ -85,6 +92,8 @@ def gen(rng, tier):
 def _desc(sc, mo):
     dense = mo['kind'].startswith('ct')
     text = common.dense_text(mo['ast']) if dense else 'out = ' + sg.to_text(mo['ast']) + ';'
+    if mo.get('subs'):
+        return {'cls': mo['kind'], 'vars': common.var_decls(sc['vars']), 'spec': mo['top'], 'subspecs': list(mo['subs'])}
     return {'cls': mo['kind'], 'vars': common.var_decls(sc['vars']), 'spec': text}
 
 
